@@ -10,7 +10,7 @@ package gorp
 //@ spec func BK[K Key, V comparable](d *delta[K, V]) bool =
 //@   d.state != nil && d.forward != nil &&
 //@   (forall v V :: __in(d.forward, v) ==> d.forward[v] != nil && __alloc(d.forward[v]) && (exists k K :: __in(d.forward[v], k))) &&
-//@   (forall v1 V, v2 V :: __in(d.forward, v1) && __in(d.forward, v2) && v1 != v2 ==> d.forward[v1] != d.forward[v2])
+//@   (forall v1 V, v2 V :: __in(d.forward, v1) && __in(d.forward, v2) && v1 != v2 ==> !__eq(d.forward[v1], d.forward[v2]))
 //@ # representation invariant of a delta: the forward index is exactly the inverse of the live staged entries
 //@ spec func DI[K Key, V comparable](d *delta[K, V]) bool =
 //@   BK(d) && (forall v V, k K :: inF(d, v, k) == (__in(d.state, k) && !d.state[k].deleted && d.state[k].value == v))
@@ -20,6 +20,6 @@ package gorp
 //@   requires BK(d)
 //@   ensures  BK(d)
 //@   ensures  forall v V, k K :: inF(d, v, k) == (old(inF(d, v, k)) || (v == value && k == key))
-//@   ensures  d.state == old(d.state) && d.forward == old(d.forward)
+//@   ensures  __eq(d.state, old(d.state)) && __eq(d.forward, old(d.forward))
 //@   ensures  forall k K :: __in(d.state, k) == old(__in(d.state, k)) && d.state[k] == old(d.state[k])
 //@   modifies d.forward, d.forward[value]
